@@ -2,6 +2,7 @@
    every proof is [exact <lemma>]. *)
 From Coq Require Import List NArith Bool.
 From CKB Require Import Pool.PoolMap Pool.Reorg Pool.Template Pool.TemplateProofs.
+From CKB Require Pool.Uncles Pool.UnclesProofs.
 Import ListNotations.
 Local Open Scope N_scope.
 
@@ -66,6 +67,122 @@ Theorem c13_example_sizes :
   t_size s = mkTS 400 50 456 1506 /\ real_size s = 1506.
 Proof. exact size_run. Qed.
 
+(* ---- CandidateUncles (tx-pool/src/block_assembler/candidate_uncles.rs; model Pool/Uncles.v): the container the
+   assembler keeps the candidate uncles in and prepare_uncles draws the template's uncles from.  Inv: the numbers of
+   the buckets strictly ascending, no empty bucket, every bucket duplicate-free with at most MAX_PER_HEIGHT ids,
+   count = the number of stored uncles <= MAX_CANDIDATE_UNCLES.  It holds after ANY sequence of insert /
+   remove_by_number from the empty container *)
+Theorem c13_uncles_inv_reachable : forall ops, Uncles.Inv (Uncles.run Uncles.empty ops).
+Proof. exact UnclesProofs.reachable_inv. Qed.
+
+Theorem c13_uncles_inv_step : forall c o, Uncles.Inv c -> Uncles.Inv (fst (Uncles.step c o)).
+Proof. exact UnclesProofs.step_inv. Qed.
+
+(* neither `.expect("length checked")` nor a `count -= …` below zero is ever reached *)
+Theorem c13_uncles_never_panic : forall c o, Uncles.Inv c -> snd (Uncles.step c o) <> Uncles.IPanic.
+Proof. exact UnclesProofs.step_never_panics. Qed.
+
+Theorem c13_uncles_reachable_never_panic : forall ops o,
+  snd (Uncles.step (Uncles.run Uncles.empty ops) o) <> Uncles.IPanic.
+Proof. exact UnclesProofs.reachable_never_panics. Qed.
+
+Theorem c13_uncles_insert_true_contains : forall c u,
+  Uncles.Inv c -> snd (Uncles.insert c u) = Uncles.ITrue -> Uncles.contains (fst (Uncles.insert c u)) u = true.
+Proof. exact UnclesProofs.insert_true_contains. Qed.
+
+(* insert answers true exactly for a new uncle when there is room (or the lowest bucket makes room: its number is
+   below the new one) and the uncle's height holds fewer than MAX_PER_HEIGHT *)
+Theorem c13_uncles_insert_true_iff : forall c u, Uncles.Inv c ->
+  (snd (Uncles.insert c u) = Uncles.ITrue <->
+   Uncles.contains c u = false /\
+   ((Uncles.cu_count c < Uncles.MAX_CANDIDATE_UNCLES)%nat \/ exists k, Uncles.first_key c = Some k /\ k < fst u) /\
+   (length (Uncles.bucket_of c (fst u)) < Uncles.MAX_PER_HEIGHT)%nat).
+Proof. exact UnclesProofs.insert_true_iff. Qed.
+
+(* membership of EVERY uncle v after insert c u: what was there stays unless it was in the evicted bucket
+   (evicted c n v = container full && lowest number < n && v has the lowest number); u is there when the answer
+   was true *)
+Theorem c13_uncles_insert_membership : forall c u v, Uncles.Inv c ->
+  Uncles.contains (fst (Uncles.insert c u)) v =
+  (Uncles.contains c v && negb (Uncles.evicted c (fst u) v))
+  || (Uncles.uncle_eqb v u && Uncles.ires_eqb (snd (Uncles.insert c u)) Uncles.ITrue).
+Proof. exact UnclesProofs.insert_membership. Qed.
+
+(* an insert takes a member away only by evicting the lowest bucket, only when the container is full and the new
+   number is above the lowest one … *)
+Theorem c13_uncles_insert_removes_only_evicted : forall c u v, Uncles.Inv c ->
+  Uncles.contains c v = true -> Uncles.contains (fst (Uncles.insert c u)) v = false ->
+  (Uncles.MAX_CANDIDATE_UNCLES <= Uncles.cu_count c)%nat /\
+  exists k, Uncles.first_key c = Some k /\ k < fst u /\ fst v = k.
+Proof. exact UnclesProofs.insert_removes_only_evicted. Qed.
+
+(* … and then the WHOLE lowest bucket goes, whatever the insert answers *)
+Theorem c13_uncles_insert_evicts_lowest_bucket : forall c u v k, Uncles.Inv c ->
+  (Uncles.MAX_CANDIDATE_UNCLES <= Uncles.cu_count c)%nat -> Uncles.first_key c = Some k -> k < fst u -> fst v = k ->
+  Uncles.contains (fst (Uncles.insert c u)) v = false.
+Proof. exact UnclesProofs.insert_evicts_lowest_bucket. Qed.
+
+Theorem c13_uncles_remove_true_iff : forall c u, Uncles.Inv c ->
+  (snd (Uncles.remove_by_number c u) = Uncles.ITrue <-> Uncles.contains c u = true).
+Proof. exact UnclesProofs.remove_true_iff. Qed.
+
+Theorem c13_uncles_remove_membership : forall c u, Uncles.Inv c ->
+  Uncles.contains (fst (Uncles.remove_by_number c u)) u = false /\
+  forall v, v <> u -> Uncles.contains (fst (Uncles.remove_by_number c u)) v = Uncles.contains c v.
+Proof. exact UnclesProofs.remove_membership. Qed.
+
+Theorem c13_uncles_remove_len : forall c u, Uncles.Inv c ->
+  (snd (Uncles.remove_by_number c u) = Uncles.ITrue -> Uncles.len c = S (Uncles.len (fst (Uncles.remove_by_number c u)))) /\
+  (snd (Uncles.remove_by_number c u) = Uncles.IFalse -> fst (Uncles.remove_by_number c u) = c).
+Proof. exact UnclesProofs.remove_len. Qed.
+
+(* values(): exactly the contained uncles, each once, len() of them, numbers ascending *)
+Theorem c13_uncles_contains_iff_values : forall c u, Uncles.Inv c ->
+  (Uncles.contains c u = true <-> In u (Uncles.values c)).
+Proof. exact UnclesProofs.contains_iff_values. Qed.
+
+Theorem c13_uncles_values_ascending : forall c, Uncles.Inv c ->
+  Sorted.StronglySorted N.le (map fst (Uncles.values c)).
+Proof. exact UnclesProofs.values_ascending. Qed.
+
+Theorem c13_uncles_values_nodup : forall c, Uncles.Inv c -> NoDup (Uncles.values c).
+Proof. exact UnclesProofs.values_NoDup. Qed.
+
+Theorem c13_uncles_len_is_length_of_values : forall c, Uncles.Inv c -> Uncles.len c = length (Uncles.values c).
+Proof. exact UnclesProofs.len_is_length_of_values. Qed.
+
+(* a full container (UnclesProofs.full: heights 1..12 with ten uncles each, eight at height 13) meets Inv; a higher
+   number evicts the ten of height 1, the lowest number or below is refused, a remove makes room again *)
+Theorem c13_uncles_example_full :
+  Uncles.Inv UnclesProofs.full /\ Uncles.len UnclesProofs.full = 128%nat /\
+  Uncles.first_key UnclesProofs.full = Some 1 /\ length (Uncles.cu_map UnclesProofs.full) = 13%nat /\
+  snd (Uncles.insert UnclesProofs.full (14, 0)) = Uncles.ITrue /\
+  Uncles.len (fst (Uncles.insert UnclesProofs.full (14, 0))) = 119%nat /\
+  Uncles.contains UnclesProofs.full (1, 3) = true /\
+  Uncles.contains (fst (Uncles.insert UnclesProofs.full (14, 0))) (1, 3) = false /\
+  Uncles.contains (fst (Uncles.insert UnclesProofs.full (14, 0))) (2, 3) = true /\
+  Uncles.contains (fst (Uncles.insert UnclesProofs.full (14, 0))) (14, 0) = true /\
+  Uncles.first_key (fst (Uncles.insert UnclesProofs.full (14, 0))) = Some 2 /\
+  Uncles.insert UnclesProofs.full (1, 77) = (UnclesProofs.full, Uncles.IFalse) /\
+  Uncles.insert UnclesProofs.full (0, 77) = (UnclesProofs.full, Uncles.IFalse) /\
+  snd (Uncles.remove_by_number UnclesProofs.full (1, 5)) = Uncles.ITrue /\
+  snd (Uncles.insert (fst (Uncles.remove_by_number UnclesProofs.full (1, 5))) (1, 77)) = Uncles.ITrue /\
+  Uncles.len (fst (Uncles.insert (fst (Uncles.remove_by_number UnclesProofs.full (1, 5))) (1, 77))) = 128%nat /\
+  length (Uncles.cu_map (Uncles.run UnclesProofs.full (map (fun i => Uncles.ORem (13, N.of_nat i)) (seq 0 8)))) = 12%nat.
+Proof. exact UnclesProofs.full_container. Qed.
+
+(* "an insert that answers false leaves the container as it was" is false of the code: on a full container the
+   lowest bucket is thrown away BEFORE the set insert is tried.  Re-announcing a candidate (u already contained), or
+   an uncle for a height that already holds MAX_PER_HEIGHT, answers false and costs the ten candidates of the lowest
+   height *)
+Theorem c13_uncles_insert_false_unchanged_refuted :
+  exists ops u v, let c := Uncles.run Uncles.empty ops in
+    Uncles.Inv c /\ snd (Uncles.insert c u) = Uncles.IFalse /\ Uncles.contains c u = true /\
+    Uncles.contains c v = true /\ Uncles.contains (fst (Uncles.insert c u)) v = false /\
+    (Uncles.len (fst (Uncles.insert c u)) + 10 = Uncles.len c)%nat /\
+    snd (Uncles.insert c (2, 99)) = Uncles.IFalse /\ (Uncles.len (fst (Uncles.insert c (2%N, 99%N))) + 10 = Uncles.len c)%nat.
+Proof. exact UnclesProofs.insert_false_unchanged_refuted. Qed.
+
 Redirect "out/C13.c13_size_accounting" Print Assumptions c13_size_accounting.
 Redirect "out/C13.c13_ancestors_first" Print Assumptions c13_ancestors_first.
 Redirect "out/C13.c13_ancestor_closed" Print Assumptions c13_ancestor_closed.
@@ -74,3 +191,21 @@ Redirect "out/C13.c13_selection_limit_stale_refuted" Print Assumptions c13_selec
 Redirect "out/C13.c13_example_hyps" Print Assumptions c13_example_hyps.
 Redirect "out/C13.c13_example_select" Print Assumptions c13_example_select.
 Redirect "out/C13.c13_example_sizes" Print Assumptions c13_example_sizes.
+Redirect "out/C13.c13_uncles_inv_reachable" Print Assumptions c13_uncles_inv_reachable.
+Redirect "out/C13.c13_uncles_inv_step" Print Assumptions c13_uncles_inv_step.
+Redirect "out/C13.c13_uncles_never_panic" Print Assumptions c13_uncles_never_panic.
+Redirect "out/C13.c13_uncles_reachable_never_panic" Print Assumptions c13_uncles_reachable_never_panic.
+Redirect "out/C13.c13_uncles_insert_true_contains" Print Assumptions c13_uncles_insert_true_contains.
+Redirect "out/C13.c13_uncles_insert_true_iff" Print Assumptions c13_uncles_insert_true_iff.
+Redirect "out/C13.c13_uncles_insert_membership" Print Assumptions c13_uncles_insert_membership.
+Redirect "out/C13.c13_uncles_insert_removes_only_evicted" Print Assumptions c13_uncles_insert_removes_only_evicted.
+Redirect "out/C13.c13_uncles_insert_evicts_lowest_bucket" Print Assumptions c13_uncles_insert_evicts_lowest_bucket.
+Redirect "out/C13.c13_uncles_remove_true_iff" Print Assumptions c13_uncles_remove_true_iff.
+Redirect "out/C13.c13_uncles_remove_membership" Print Assumptions c13_uncles_remove_membership.
+Redirect "out/C13.c13_uncles_remove_len" Print Assumptions c13_uncles_remove_len.
+Redirect "out/C13.c13_uncles_contains_iff_values" Print Assumptions c13_uncles_contains_iff_values.
+Redirect "out/C13.c13_uncles_values_ascending" Print Assumptions c13_uncles_values_ascending.
+Redirect "out/C13.c13_uncles_values_nodup" Print Assumptions c13_uncles_values_nodup.
+Redirect "out/C13.c13_uncles_len_is_length_of_values" Print Assumptions c13_uncles_len_is_length_of_values.
+Redirect "out/C13.c13_uncles_example_full" Print Assumptions c13_uncles_example_full.
+Redirect "out/C13.c13_uncles_insert_false_unchanged_refuted" Print Assumptions c13_uncles_insert_false_unchanged_refuted.
